@@ -65,6 +65,14 @@ class StreamRNG(stubs.FirstPickRNG):
     def get_state(self, *a, **k):
         return ("stream", self.name, self.ncall)
 
+    def __deepcopy__(self, memo=None):
+        # numpy semantics: an independent generator object holding a snapshot of the state
+        c = StreamRNG(self.name, self.env, "detached-copy")
+        c.ncall = self.ncall
+        return c
+
+    __copy__ = __deepcopy__
+
     def set_state(self, st):
         self.env.reseeds[self.role] = self.env.reseeds.get(self.role, 0) + 1
         self.name, self.ncall = st[1], st[2]
